@@ -47,3 +47,31 @@ func Harness_C12_ComposerInputs() {
 		verifrt.Assert(failAt == n, "a patch list containing an inapplicable patch does not succeed")
 	}
 }
+
+// Harness_C12_PatchValuesWithLists: patch values that contain lists a tidy-up might rewrite (a service endpoint list
+// with a repeated URI, purposes with a repeated and unsorted entry, also-known-as URIs out of order) are left exactly
+// as given, in any pair of such patches.
+func Harness_C12_PatchValuesWithLists() {
+	a, b := "https://ep.example/"+verifrt.AnyAtom("a"), "https://ep.example/"+verifrt.AnyAtom("b")
+	verifrt.Assume(a != b)
+	mk := func(tag string) patch.Patch {
+		switch verifrt.Choose(tag, 4) {
+		case 0:
+			return patch.Patch{patch.ActionKey: patch.AddServiceEndpoints, patch.ServicesKey: []interface{}{
+				map[string]interface{}{"id": "svc1", "type": "t", "serviceEndpoint": []interface{}{a, a, b}, "routingKeys": []interface{}{"z", "y", "z"}}}}
+		case 1:
+			return patch.Patch{patch.ActionKey: patch.AddPublicKeys, patch.PublicKeys: []interface{}{
+				map[string]interface{}{"id": "key1", "type": "JsonWebKey2020", "purposes": []interface{}{"keyAgreement", "authentication", "keyAgreement"},
+					"publicKeyJwk": map[string]interface{}{"kty": "EC", "crv": "P-256", "x": "x", "y": "y"}}}}
+		case 2:
+			return patch.Patch{patch.ActionKey: patch.AddAlsoKnownAs, patch.UrisKey: []interface{}{b, a, b}}
+		}
+		return patch.Patch{patch.ActionKey: patch.Replace, patch.DocumentKey: map[string]interface{}{
+			"publicKeys": []interface{}{}, "services": []interface{}{map[string]interface{}{"id": "svc2", "type": "t", "serviceEndpoint": []interface{}{b, b}}}}}
+	}
+	doc, _, _, _ := c10Doc(1, 1, 1)
+	patches := []patch.Patch{mk("first"), mk("second")}
+	verifrt.Freeze(doc, patches)
+	_, _ = New().ApplyPatches(doc, patches)
+	verifrt.Reach("applied")
+}
